@@ -408,3 +408,18 @@ def check(P: Project, R: Report) -> None:
         R.notes.append(f"R6 not evaluated: the version→mode function is written in a shape C13's rules cannot read ({undecided13[:120]})")
     else:
         R.need(n6 >= 3, "anchor: the region obligations of the version→mode function were not produced")
+
+    # ------------------------------------------------------------------ R7: the answer is the answer to *this* request
+    R.rule("R7", "the answer the handshake settles on is the answer to this initialize request: the handshake functions leave the request id to send_message (fresh uuid4) or hand on their own caller's — an id fixed by the library would let a late answer to an earlier, abandoned attempt on the same streams be taken for this one's")
+    from ._sendmsg import analyse as _an_send, request_id_problems
+
+    W_ = _an_send(P)
+    hs = [f_ for f_ in P.funcs.values() if f_.module.name == A.MOD_INIT]
+    calls7 = [(f_, c_) for f_ in hs for c_ in walk_local(f_.node) if isinstance(c_, ast.Call) and P.resolve_call(f_, c_) is W_.send]
+    R.need(calls7, "anchor: the handshake module no longer calls send_message")
+    probs7 = request_id_problems(P, W_.send, only=hs)
+    for f_, c_, t_ in probs7:
+        R.ob("R7", f"{f_.qual}: the initialize request carries a fresh id", False, f"{f_.module.rel}:{c_.lineno}",
+             f"passes message_id=`{t_[:60]}`: a second handshake attempt on the same streams (after a timeout) reuses the id, and the server's late answer to the first attempt — possibly another version — is returned as the answer to the second, sent `initialized` on, and recorded by the trackers")
+    if not probs7:
+        R.ob("R7", "the handshake leaves the request id to send_message", True, fi.module.rel, "", sample=f"R7 {len(calls7)} call(s) of send_message in the handshake module: no message_id of the library's choosing")
